@@ -58,6 +58,26 @@ pub fn register(m: &mut HashMap<&'static str, OpFn>) {
             subtle::Choice::from(a.boolean(2) as u8),
         ))
     });
+    m.insert("rs.cassign", |a| {
+        use subtle::ConditionallySelectable;
+        let mut p = a.rs(0);
+        p.conditional_assign(&a.rs(1), subtle::Choice::from(a.boolean(2) as u8));
+        rs_out(&p)
+    });
+    m.insert("rs.cswap", |a| {
+        use subtle::ConditionallySelectable;
+        let (mut p, mut q) = (a.rs(0), a.rs(1));
+        RistrettoPoint::conditional_swap(&mut p, &mut q, subtle::Choice::from(a.boolean(2) as u8));
+        let mut o = rs_out(&p);
+        o.extend(rs_out(&q));
+        o
+    });
+    m.insert("rs.cneg", |a| {
+        use subtle::ConditionallyNegatable;
+        let mut p = a.rs(0);
+        p.conditional_negate(subtle::Choice::from(a.boolean(1) as u8));
+        rs_out(&p)
+    });
     m.insert("rs.compress_eq", |a| {
         let x = CompressedRistretto(a.b32(0));
         let y = CompressedRistretto(a.b32(1));
